@@ -82,6 +82,7 @@ type frame struct {
 	deferredBy *frame
 	ptrBind  map[string]*lval
 	namePos  map[string][]token.Pos
+	resLv    map[int]*lval
 }
 
 type fnTrans struct {
@@ -106,6 +107,8 @@ type fnTrans struct {
 	retCount int
 	usedSpecFuncs map[string]bool
 	curPos token.Pos
+	constGlobals map[string]int64
+	outside  map[string]int
 	callSites map[ssa.Instruction]string
 	usedAsserts map[string]bool
 }
@@ -137,6 +140,11 @@ func (t *fnTrans) global(name string, s Sort) *Cell {
 func typeKey(t types.Type) string {
 	if b, ok := t.(*types.Basic); ok {
 		t = types.Typ[b.Kind()] // byte == uint8, rune == int32
+	}
+	if _, named := t.(*types.Named); !named {
+		if i, ok := t.Underlying().(*types.Interface); ok && i.Empty() {
+			return "any" // interface{} and any are the same type
+		}
 	}
 	s := types.TypeString(t, func(p *types.Package) string { return p.Name() })
 	return sanitize(s)
@@ -333,6 +341,12 @@ func (t *fnTrans) globalVar(g *ssa.Global) sval {
 	// a package-level variable: one cell G_pkg.name holding its value
 	typ := g.Type().(*types.Pointer).Elem()
 	name := "G_" + g.Pkg.Pkg.Name() + "." + g.Name()
+	if id, ok := knownErrorGlobals[g.Pkg.Pkg.Name()+"."+g.Name()]; ok {
+		// immutable error variables of the standard library: fixed ids
+		c := t.global(name, t.th.Addr())
+		t.constGlobals[name] = id
+		return sval{e: nil, typ: g.Type(), lv: &lval{kind: lvCell, cell: c, typ: typ}}
+	}
 	var c *Cell
 	switch typ.Underlying().(type) {
 	case *types.Struct:
@@ -646,6 +660,9 @@ func (f *frame) instr(in ssa.Instruction) {
 				t.cur.Assume(s)
 			}
 		}
+		if !th.bv && x.Op == token.OR {
+			res = f.orExact(x, a.e, b.e, res)
+		}
 		if !th.bv && x.Op == token.MUL {
 			// recognise b*(a/b): exact, equals a - a mod b  (0 <= a mod b < b for b > 0)
 			res = f.mulPattern(x, a.e, b.e, res)
@@ -718,7 +735,7 @@ func (f *frame) instr(in ssa.Instruction) {
 		f.check(False, "explicit-panic")
 		t.cur.Assume(False)
 	case *ssa.Go, *ssa.Send, *ssa.Select, *ssa.MakeChan, *ssa.MakeMap, *ssa.MapUpdate, *ssa.Lookup, *ssa.Range, *ssa.Next:
-		fail("outside subset: %T (%s)", in, in)
+		f.unsupported(in, fmt.Sprintf("%T", in))
 	default:
 		fail("unsupported instruction %T: %s", in, in)
 	}
@@ -760,6 +777,91 @@ func (f *frame) phiStub(from, to *ssa.BasicBlock) *Block {
 
 func (f *frame) edgeTo(from, to *ssa.BasicBlock, cond Expr, cur *Block) {
 	cur.Goto(f.phiStub(from, to))
+}
+
+// orExact makes x|y exact in the int theory for the shapes the repository uses:
+// a constant operand (each run of one-bits is set), or a field that was cleared
+// with &^mask and is filled with a value confined to that mask.
+func (f *frame) orExact(x *ssa.BinOp, a, b, res Expr) Expr {
+	t := f.t
+	setRuns := func(v Expr, c *big.Int) Expr {
+		e := v
+		for s := 0; s < c.BitLen(); {
+			if c.Bit(s) == 0 {
+				s++
+				continue
+			}
+			n := 0
+			for c.Bit(s+n) == 1 {
+				n++
+			}
+			fld := IMul(mk("mod", SInt, mk("div", SInt, v, BigLit(pow2(s))), BigLit(pow2(n))), BigLit(pow2(s)))
+			full := BigLit(new(big.Int).Lsh(new(big.Int).Sub(pow2(n), bigOne), uint(s)))
+			e = IAdd(ISub(e, fld), full)
+			s += n
+		}
+		return e
+	}
+	w, signed, _ := intInfo(x.Type())
+	if signed {
+		return res
+	}
+	_ = w
+	if c, ok := litInt(b); ok && c.Sign() >= 0 {
+		return setRuns(a, c)
+	}
+	if c, ok := litInt(a); ok && c.Sign() >= 0 {
+		return setRuns(b, c)
+	}
+	// cleared field | confined value
+	try := func(clearedV ssa.Value, cleared, other Expr) bool {
+		bo, ok := clearedV.(*ssa.BinOp)
+		if !ok || bo.Op != token.AND_NOT {
+			return false
+		}
+		k, ok := bo.Y.(*ssa.Const)
+		if !ok || k.Value == nil {
+			return false
+		}
+		m, ok := new(big.Int).SetString(k.Value.ExactString(), 10)
+		if !ok {
+			return false
+		}
+		s, n, ok := shiftedMask(m)
+		if !ok {
+			return false
+		}
+		confined := Eq(other, IMul(mk("mod", SInt, mk("div", SInt, other, BigLit(pow2(s))), BigLit(pow2(n))), BigLit(pow2(s))))
+		t.cur.Assume(Implies(confined, Eq(res, IAdd(cleared, other))))
+		return true
+	}
+	if !try(x.X, a, b) {
+		try(x.Y, b, a)
+	}
+	return res
+}
+
+// unsupported: an instruction outside the verified subset (goroutines, channels,
+// maps). It is sound to continue only if the point is unreachable under the
+// contract's preconditions, so that becomes an obligation.
+func (f *frame) unsupported(in ssa.Instruction, what string) {
+	t := f.t
+	what = strings.TrimPrefix(what, "*ssa.")
+	t.cur.Assert(False, "subset/unreachable-"+what, t.fc.Props)
+	t.cur.Assume(False)
+	t.outside[what]++
+	if v, ok := in.(ssa.Value); ok {
+		if tup, ok := v.Type().(*types.Tuple); ok {
+			var out []sval
+			for i := 0; i < tup.Len(); i++ {
+				out = append(out, sval{e: t.havocTemp("dead", t.th.SortOf(tup.At(i).Type()), nil), typ: tup.At(i).Type()})
+			}
+			f.tuples[v] = out
+			f.vals[v] = sval{typ: v.Type()}
+			return
+		}
+		f.setVal(v, sval{e: t.havocTemp("dead", t.th.SortOf(v.Type()), nil), typ: v.Type()})
+	}
 }
 
 func (f *frame) mulPattern(x *ssa.BinOp, a, b, res Expr) Expr {
@@ -1004,6 +1106,12 @@ func (f *frame) copyStruct(dstObj, srcObj Expr, typ types.Type) {
 	if n == nil {
 		fail("copy of anonymous struct")
 	}
+	if n.Obj().Name() == "XXHZero" && !t.th.bv {
+		// the ghost view of a hash object (absorbed bytes) is copied with it
+		xl, xd := t.ghost("xxhLen", SInt), t.ghost("xxhData", ArrayOf(SInt, SInt))
+		t.cur.Assign(xl, Store(xl, dstObj, Select(xl, srcObj)))
+		t.cur.Assign(xd, Store(xd, dstObj, Select(xd, srcObj)))
+	}
 	for i := 0; i < st.NumFields(); i++ {
 		ft := st.Field(i).Type()
 		switch u := ft.Underlying().(type) {
@@ -1041,6 +1149,14 @@ func (f *frame) unop(x *ssa.UnOp) {
 		case *types.Array:
 			f.setVal(x, sval{e: f.loadArray(p.e, u), typ: x.Type()})
 		case *types.Struct:
+			if f.onlyCallArg(x) {
+				// a struct value that is only passed to a call under contract: the callee sees
+				// the fields of the original object (no copy; sound while the callee's contract
+				// does not modify its by-value parameter, which Go semantics make unobservable anyway)
+				f.check(Not(Eq(p.e, th.AddrLit(0))), "nil-deref")
+				f.setVal(x, sval{e: p.e, typ: x.Type()})
+				return
+			}
 			// struct value = snapshot object
 			obj := t.newTemp("snap", t.objTop())
 			t.cur.Assign(t.objTop(), th.AAdd(t.objTop(), th.AddrLit(1)))
@@ -1052,6 +1168,8 @@ func (f *frame) unop(x *ssa.UnOp) {
 			f.check(Not(Eq(p.e, th.AddrLit(0))), "nil-deref")
 			f.setVal(x, sval{e: f.load(&lval{kind: lvElem, heap: mem, idx: p.e, typ: elem}), typ: x.Type()})
 		}
+	case token.ARROW:
+		f.unsupported(x, "chan-receive")
 	case token.NOT:
 		f.setVal(x, sval{e: Not(f.val(x.X).e), typ: x.Type()})
 	case token.SUB:
@@ -1076,6 +1194,33 @@ func (f *frame) unop(x *ssa.UnOp) {
 	default:
 		fail("unsupported unop %s", x.Op)
 	}
+}
+
+// onlyCallArg: every use of the loaded struct value is as an argument of a call to a
+// repository function that has a (non-inline) contract.
+func (f *frame) onlyCallArg(x *ssa.UnOp) bool {
+	refs := x.Referrers()
+	if refs == nil || len(*refs) == 0 {
+		return false
+	}
+	for _, r := range *refs {
+		switch c := r.(type) {
+		case *ssa.DebugRef:
+			continue
+		case *ssa.Call:
+			callee := c.Call.StaticCallee()
+			if callee == nil {
+				return false
+			}
+			fc := f.t.eng.contracts[contractKey(callee)]
+			if fc == nil || fc.Inline {
+				return false
+			}
+		default:
+			return false
+		}
+	}
+	return true
 }
 
 func (f *frame) convert(x *ssa.Convert) {
@@ -1239,7 +1384,7 @@ func (f *frame) indexAddr(x *ssa.IndexAddr) {
 		ptr, length = th.SPtr(base.e), th.SLen(base.e)
 	}
 	f.check(And(nonneg, th.ALt(idx, length)), "index")
-	addr := t.newTemp("addr", th.AAdd(ptr, idx))
+	addr := t.newTemp("addr", th.AIdx(ptr, idx))
 	f.vals[x] = sval{typ: x.Type(), lv: &lval{kind: lvElem, heap: t.mem(elem), idx: addr, typ: elem}}
 }
 
@@ -1370,6 +1515,11 @@ func (f *frame) emitReturn(rs []sval) {
 		for i, r := range rs {
 			if r.e != nil {
 				t.cur.Assign(f.results[i], r.e)
+			} else if r.lv != nil {
+				if f.resLv == nil {
+					f.resLv = map[int]*lval{}
+				}
+				f.resLv[i] = r.lv // pointer-to-scalar result (setters returning their receiver)
 			}
 		}
 		if rs == nil {
